@@ -317,6 +317,27 @@ def suite_swath(ctx):
         if p == base or base == p or p.update_hash().hexdigest() == bd or hash(p) == hash(base):
             ctx.fail("BaseDefinition.update_hash", "swaths differing by 1e-3 degree in one coordinate compare equal or share a digest",
                      {"shape": [H, W]}, size=H * W)
+        # what is fed to the digest, against the model (proved to determine lons, lats and mask for a given shape/dtype)
+        if ctx.M:
+            import hashlib
+            for dt in (np.float64, np.float32):
+                for masked in (False, True):
+                    lo_, la_ = lons.astype(dt), lats.astype(dt)
+                    mk_ = None
+                    if masked:
+                        mk_ = np.array([[r.random() < 0.3 for _ in range(W)] for _ in range(H)])
+                        sw_ = SwathDefinition(np.ma.masked_array(lo_, mk_), np.ma.masked_array(la_, mk_))
+                    else:
+                        sw_ = SwathDefinition(lo_, la_)
+                    lb, ab = list(lo_.tobytes()), list(la_.tobytes())
+                    mb = list(np.ascontiguousarray(mk_).view(np.uint8).tobytes()) if masked else []
+                    rep = ctx.M.ask("feed", lb, ab, mb)
+                    want = hashlib.sha1(bytes(int(t) for t in rep.split())).hexdigest()
+                    got = sw_.update_hash().hexdigest()
+                    ctx.case("swath.feed", (H, W, np.dtype(dt).name, masked, float(lons[0, 0])), nontrivial=True)
+                    if got != want:
+                        ctx.disagree("swath.feed", {"shape": [H, W], "dtype": np.dtype(dt).name, "masked": masked}, got, want,
+                                     "update_hash digest is not sha1(lon bytes, lat bytes[, mask bytes]) as in the model")
         # lons and lats exchanged: different coordinates, so unequal and a different digest / hash / cache key
         xa, ya = lats.copy(), (lons / 2.0)
         if not np.array_equal(xa, ya):
